@@ -473,6 +473,21 @@ func (check) Run(seed int64, tier string, idx int, verbose bool) harness.Result 
 			}
 		}
 
+		// child handles of the destination taken before the merge: whatever
+		// becomes of them (still part of the destination or detached), they
+		// never belong to the source
+		var dstHandles []*ucfg.Config
+		if ss := subs(ucfg.VerifWalk(dst)); len(ss) > 1 && r.Intn(2) == 0 {
+			for i, k := 0, 1+r.Intn(3); i < k; i++ {
+				n := ss[1+r.Intn(len(ss)-1)]
+				if h, err := dst.Child(n.Walk, -1, sepOpt); err == nil && h != nil {
+					dstHandles = append(dstHandles, h)
+					log = append(log, fmt.Sprintf("h%d=dst.Child(%q)", len(dstHandles)-1, n.Walk))
+				}
+			}
+			res.Ev("destination_child_handles_taken_before_merge", int64(len(dstHandles)))
+		}
+
 		// --- placement ---
 		var from interface{}
 		placement := []string{"direct", "map", "nested-map", "slice-twice", "struct-ptr", "struct-value", "map-twice", "map-second-spelling", "struct-second-spelling"}[r.Intn(9)]
@@ -582,6 +597,16 @@ func (check) Run(seed int64, tier string, idx int, verbose bool) harness.Result 
 			fd, fs := fingerprintOf(dst), fingerprintOf(srcRoot)
 			dw, sw, a, found := aliased(fd, fs)
 			if !found {
+				for i, h := range dstHandles {
+					if hw, sw, a, found := aliased(fingerprintOf(h), fs); found {
+						sig := "aliasing:destination-child-handle-taken-before-merge"
+						if when != "" {
+							sig += ":" + when
+						}
+						fail(sig, "node %q below handle h%d of the destination and source node %q are the same object (%#x)", hw, i, sw, a)
+						return false
+					}
+				}
 				return true
 			}
 			sig := "aliasing"
@@ -621,6 +646,13 @@ func (check) Run(seed int64, tier string, idx int, verbose bool) harness.Result 
 		step := func(sname, what, target string, sideC, other *ucfg.Config, sig string, op func() error) (ok, cont bool) {
 			fpO := fingerprintOf(other)
 			rdO := unpackOf(other)
+			var hBefore []fp
+			if sideC == src {
+				// a write to the source is invisible through the handles too
+				for _, h := range dstHandles {
+					hBefore = append(hBefore, fingerprintOf(h))
+				}
+			}
 			intoEmpty := target != "" && emptyContainer(ucfg.VerifWalk(sideC), parentOf(target))
 			err := op()
 			res.Eval(1)
@@ -636,6 +668,12 @@ func (check) Run(seed int64, tier string, idx int, verbose bool) harness.Result 
 			if rd2 := unpackOf(other); rd2 != rdO {
 				fail(sig, "after %s on %s the other side unpacks differently: %s vs %s", what, sname, rdO, rd2)
 				return err == nil, false
+			}
+			for i, b := range hBefore {
+				if a := fingerprintOf(dstHandles[i]); a.text != b.text {
+					fail(sig+":through-pre-merge-child-handle-of-destination"+gained(b, a), "after %s on %s handle h%d of the destination changed: %q vs %q", what, sname, i, firstDiff(b.text, a.text), firstDiff(a.text, b.text))
+					return err == nil, false
+				}
 			}
 			return err == nil, true
 		}
@@ -655,10 +693,20 @@ func (check) Run(seed int64, tier string, idx int, verbose bool) harness.Result 
 			case 1:
 				sides = sides[1:]
 			}
+			if sides[0].c == dst {
+				for i, h := range dstHandles {
+					sides = append(sides, sd{h, srcRoot, fmt.Sprintf("h%d", i)})
+				}
+			}
 			for _, s := range sides {
 				for _, n := range subs(ucfg.VerifWalk(s.c)) {
 					name := newEntry(n, "zq")
-					ok, cont := step(s.name, "probe:SetString", name, s.c, s.other, visible, func() error {
+					sig := visible
+					if s.c != dst && s.c != src {
+						sig += ":through-pre-merge-child-handle-of-destination"
+						res.Ev("writes_through_destination_child_handles", 1)
+					}
+					ok, cont := step(s.name, "probe:SetString", name, s.c, s.other, sig, func() error {
 						return s.c.SetString(name, -1, "probe", sepOpt)
 					})
 					if !cont {
@@ -668,7 +716,7 @@ func (check) Run(seed int64, tier string, idx int, verbose bool) harness.Result 
 						muts++
 						res.Ev("probe_writes", 1)
 						if r.Intn(2) == 0 {
-							if _, cont = step(s.name, "probe:Remove", name, s.c, s.other, visible, func() error {
+							if _, cont = step(s.name, "probe:Remove", name, s.c, s.other, sig, func() error {
 								_, e := s.c.Remove(name, -1, sepOpt)
 								return e
 							}); !cont {
@@ -688,8 +736,14 @@ func (check) Run(seed int64, tier string, idx int, verbose bool) harness.Result 
 		crossMerges := 0
 		for i := 0; i < n; i++ {
 			side, other, otherHandle, sname := dst, srcRoot, src, "dst"
+			visible := visible
 			if r.Intn(2) == 0 {
 				side, other, otherHandle, sname = src, dst, dst, "src"
+			} else if len(dstHandles) > 0 && r.Intn(3) == 0 {
+				hi := r.Intn(len(dstHandles))
+				side, sname = dstHandles[hi], fmt.Sprintf("h%d", hi)
+				visible += ":through-pre-merge-child-handle-of-destination"
+				res.Ev("writes_through_destination_child_handles", 1)
 			}
 			// the address: from the fixed pool, or taken from the tree as it is now
 			names := []string{"a", "b", "c", "a.b", "a.a", "emb", "emb.a", "emb.a.b", "emb2.b", "m.emb.a", "l.0.a", "l.2.b", "x", "y.z", "b.0", "0", "1.a", "2", "0.b"}
